@@ -64,7 +64,7 @@ func main() {
 	}
 	specs = append(specs, pkgSpec{dir: "definition", imppath: "github.com/Flowpack/prunner/definition", match: func(string) bool { return true }, imports: map[string]string{}, ranges: true})
 	if *withOS {
-		specs = append(specs, pkgSpec{dir: "store", imppath: "github.com/Flowpack/prunner/store", match: func(string) bool { return true }, imports: map[string]string{"os": "vos"}})
+		specs = append(specs, pkgSpec{dir: "store", imppath: "github.com/Flowpack/prunner/store", match: func(string) bool { return true }, imports: map[string]string{"os": "vos", "sync": "vsync", "time": "vtime", "sync/atomic": "vatomic"}})
 	}
 
 	exports := loadExports()
